@@ -153,8 +153,19 @@ def replay(prop, name, r):
         scn['history_runs'] = 1          # the clause is about what an EARLIER run of the same decorated operation may leave behind
     o = native('native_tr.py', scn)
     rec = {'scenario': scn, 'observed': o}
-    holds = None
+    holds = evaluate(prop, name, scn, o, rec)
+    rec['clause_holds_on_real_code'] = holds
+    if holds is None:
+        return None, rec
+    return (not holds), rec
+
+
+def evaluate(prop, name, scn, o, rec=None):
+    """does the refuted clause `name` hold on the observation `o` of the real code?  True / False / None (no oracle for this clause).
+    The oracle is always the clause that was refuted, never another clause of the same property."""
+    rec = rec if rec is not None else {}
     C18_FLAGS = ('exception_false_and_complete', 'exception_true_and_complete', 'base/incomplete')
+    holds = None
     if 'original_runs_outside_the_interception_context' in name:
         holds = bool(o['body_in_interception']) and not any(o['body_in_interception'])
     elif 'body_runs_inside_the_interception_context' in name:
@@ -162,7 +173,6 @@ def replay(prop, name, r):
     elif '/missing/' in name and scn['unit'] == 'W_in':
         holds = missing_policy(o, scn['config'])
     elif 'body_exactly_once' in name or 'result_is_body_result' in name or 'body_exception_or_callee_interrupt' in name or 'must_return_or_raise' in name:
-        # the native oracle must be the clause that was refuted, never a different clause of the same property
         holds = transparent(o)
     elif 'finalised_exactly_once' in name:
         ev = o['cassette_events']; holds = ev.count('create') == 1 and ev.count('save') + ev.count('abort') == 1
@@ -181,7 +191,4 @@ def replay(prop, name, r):
             holds = inc == 'True'
         elif body:
             holds = inc == 'False' and exc == 'True'
-    rec['clause_holds_on_real_code'] = holds
-    if holds is None:
-        return None, rec
-    return (not holds), rec
+    return holds
